@@ -3,13 +3,14 @@ package verifh
 import (
 	"bufio"
 	"image/png"
+	"sync"
 
-	webp "github.com/deepteams/webp"
 	"bytes"
 	"encoding/binary"
 	"encoding/json"
 	"flag"
 	"fmt"
+	webp "github.com/deepteams/webp"
 	"os"
 	"os/exec"
 	"path/filepath"
@@ -163,13 +164,13 @@ func warmUp() {
 // ------------------------------------------------------------------ worker
 
 type workerOut struct {
-	Stats       *Stats         `json:"stats"`
-	Known       map[string]int `json:"known_seen"`
-	KnownSample map[string]string `json:"known_sample"`
-	Candidate   string         `json:"candidate,omitempty"`
-	Done        int            `json:"done"`
-	StoppedEarly bool          `json:"stopped_early"`
-	WallS       float64        `json:"wall_s"`
+	Stats        *Stats            `json:"stats"`
+	Known        map[string]int    `json:"known_seen"`
+	KnownSample  map[string]string `json:"known_sample"`
+	Candidate    string            `json:"candidate,omitempty"`
+	Done         int               `json:"done"`
+	StoppedEarly bool              `json:"stopped_early"`
+	WallS        float64           `json:"wall_s"`
 }
 
 func writeHashSet(path string, m map[uint64]struct{}) {
@@ -373,7 +374,23 @@ func workMain(args []string) int {
 // armWatchdog: a run that does not return within the budget is a hang (for C05 a
 // violation candidate, for every other property infrastructure trouble): the case
 // is left behind as a replay file and the process exits with status 4.
-func armWatchdog(propID string, seed, runSeed uint64, tier string, race bool, params any, out string) *time.Timer {
+type watchdog struct {
+	mu      sync.Mutex
+	stopped bool
+	t       *time.Timer
+}
+
+func (w *watchdog) Stop() {
+	w.mu.Lock()
+	w.stopped = true
+	w.t.Stop()
+	w.mu.Unlock()
+}
+
+// The budget is CPU time of this process (an endless loop burns it at one core per
+// second whatever else the machine is doing, a slow but finite run on a loaded machine does
+// not), with a wall-clock backstop of ten times the budget for a run that blocks for real.
+func armWatchdog(propID string, seed, runSeed uint64, tier string, race bool, params any, out string) *watchdog {
 	budget := 90 * time.Second
 	if race {
 		budget = 300 * time.Second
@@ -383,16 +400,34 @@ func armWatchdog(propID string, seed, runSeed uint64, tier string, race bool, pa
 			budget *= time.Duration(v)
 		}
 	}
-	return time.AfterFunc(budget, func() {
+	startCPU, startWall := processCPU(), time.Now()
+	w := &watchdog{}
+	fire := func() {
 		pj, _ := json.Marshal(params)
-		rf := ReplayFile{Property: propID, Signature: "hang", Detail: fmt.Sprintf("run did not return within %v", budget), Seed: seed, RunSeed: runSeed, Tier: tier, Race: race, Params: pj}
+		rf := ReplayFile{Property: propID, Signature: "hang", Detail: fmt.Sprintf("run did not return within %v of CPU time", budget), Seed: seed, RunSeed: runSeed, Tier: tier, Race: race, Params: pj}
 		b, _ := json.MarshalIndent(rf, "", " ")
 		if out != "" {
 			os.WriteFile(out+".hang.json", b, 0o644)
 		}
-		fmt.Fprintf(os.Stderr, "WATCHDOG: run_seed=%d did not return within %v\n", runSeed, budget)
+		fmt.Fprintf(os.Stderr, "WATCHDOG: run_seed=%d did not return within %v of CPU time\n", runSeed, budget)
 		os.Exit(4)
-	})
+	}
+	var check func()
+	check = func() {
+		w.mu.Lock()
+		defer w.mu.Unlock()
+		if w.stopped {
+			return
+		}
+		if processCPU()-startCPU >= budget || time.Since(startWall) >= 10*budget {
+			fire()
+		}
+		w.t = time.AfterFunc(2*time.Second, check)
+	}
+	w.mu.Lock()
+	w.t = time.AfterFunc(2*time.Second, check)
+	w.mu.Unlock()
+	return w
 }
 
 // countSwitches: number of scheduling decisions (a lower bound on information in
@@ -905,29 +940,29 @@ func mergeStats(into, s *Stats) {
 
 func writeEvidence(prop Property, doc PropDoc, tier string, seed uint64, st *Stats, runsPlain, runsRace int64, wall float64, violations int, knownSeen map[string]int, stoppedEarly bool, batches []*batchResult) {
 	cov := map[string]any{
-		"evaluations":         st.Runs,
-		"distinct_nontrivial": len(st.nontrivial),
-		"rule":                doc.Rule,
-		"samples":             st.Samples,
-		"exhaustive":          false,
-		"runs_plain_build":    runsPlain,
-		"runs_race_build":     runsRace,
-		"simulated_worlds":    st.Worlds,
-		"scheduling_steps_simulated": st.Steps,
-		"simulated_time_note": "this repository has no clock or timer; the only notion of simulated time is the number of scheduling steps",
+		"evaluations":                   st.Runs,
+		"distinct_nontrivial":           len(st.nontrivial),
+		"rule":                          doc.Rule,
+		"samples":                       st.Samples,
+		"exhaustive":                    false,
+		"runs_plain_build":              runsPlain,
+		"runs_race_build":               runsRace,
+		"simulated_worlds":              st.Worlds,
+		"scheduling_steps_simulated":    st.Steps,
+		"simulated_time_note":           "this repository has no clock or timer; the only notion of simulated time is the number of scheduling steps",
 		"scheduling_points_with_choice": st.MultiPoints,
-		"decisions_recorded":  st.Decisions,
-		"tasks_simulated":     st.Tasks,
-		"distinct_interleavings": len(st.hashes),
-		"distinct_workloads":  len(st.workloads),
-		"faults_fired":        st.Faults,
-		"reach_probes":        st.Probes,
-		"worker_count_sites":  st.Sites,
-		"policies":            st.Policies,
-		"counters":            st.Counters,
-		"known_findings_observed": knownSeen,
-		"stopped_early_at_deadline": stoppedEarly,
-		"components": map[string]any{"real": doc.Real, "simulated": doc.Simulated, "reference": doc.Reference},
+		"decisions_recorded":            st.Decisions,
+		"tasks_simulated":               st.Tasks,
+		"distinct_interleavings":        len(st.hashes),
+		"distinct_workloads":            len(st.workloads),
+		"faults_fired":                  st.Faults,
+		"reach_probes":                  st.Probes,
+		"worker_count_sites":            st.Sites,
+		"policies":                      st.Policies,
+		"counters":                      st.Counters,
+		"known_findings_observed":       knownSeen,
+		"stopped_early_at_deadline":     stoppedEarly,
+		"components":                    map[string]any{"real": doc.Real, "simulated": doc.Simulated, "reference": doc.Reference},
 	}
 	if wall > 0 {
 		cov["runs_per_hour"] = int64(float64(st.Runs) / wall * 3600)
